@@ -24,6 +24,12 @@ theorem socket_options :
        ("tcp_server_connection.py", "self._server_sock", "socket.SOL_SOCKET", "socket.SO_REUSEADDR"),
        ("tcp_server_connection.py", "self._socket", "socket.SOL_SOCKET", "socket.SO_KEEPALIVE")] := by decide
 
+/-- **One writer** (generated fact): the only method of `Protocol` / `HsmsProtocol` that calls `self._connection.send_data` is
+`_process_send_queue` — every `send_*` goes through `send_message` and the send queue, so the packets of a block are written back to back by
+one thread (`sendBlock`/`processQueue` are the whole story of what reaches the socket) and no frame can land between two partial writes of
+another. -/
+theorem single_writer : Gen.HsmsGuards.sendDataCallers = ["HsmsProtocol._process_send_queue"] := by decide
+
 /-- **`send_message` says True only for what `_process_send_queue` resolved True** (generated facts of `Gen.BlockSend`, shared with C17:
 `BlockSendInfo.wait` waits on the result event *without a time-out* and returns `_result == SENT_OK`; `resolve(bool)` maps True/False to
 SENT_OK/SENT_ERROR; `Protocol.send_message` queues every block, waits for each and stops with False at the first that is not True).
